@@ -9,7 +9,7 @@ CFG = dict(
     header=H + "From NV.Common Require Import LockTable.\nFrom NV.C03 Require Import Model Run.\nOpen Scope N_scope.",
     kinds={"sched": ("c03_case", "check_2pc")},
     known_classes={0: "undo-after-foreign-commit"},
-    rule="seeded message schedules (loss, duplication, reordering, late and duplicate votes, stray votes from non-participant shards, commit messages arriving after the participant's key locks expired, stale locks of never-resolved transactions, coordinator timeouts at any point, 1-3 concurrent transactions over 2-3 shards, participant lock expiry through the clock hook) on one real DistributedTxCoordinator and real TxParticipants, and on the Gallina model",
+    rule="seeded message schedules (loss, duplication, reordering, late and duplicate votes, stray votes from non-participant shards, re-sent votes with different content for a shard that already voted, commit messages arriving after the participant's key locks expired, stale locks of never-resolved transactions, coordinator timeouts at any point, 1-3 concurrent transactions over 2-3 shards, participant lock expiry through the clock hook) on one real DistributedTxCoordinator and real TxParticipants, and on the Gallina model",
     trusted_base=COMMON_TB + [
         "guarded clock hook tensor_chain::distributed_tx::verif_clock (commit 317762a3) replaces wall-clock reads by an explicit `now`",
         "modelled, not verified: the message bag and the driver (who calls commit/abort/cleanup_timeouts and forwards the resulting broadcasts) are the harness's, mirroring cluster.rs / the integration tests; TensorStore as key -> one-byte value; HashMap as association list (cleanup_timeouts / take_pending_aborts order canonicalised by sorting on both sides); transaction ids and lock handles renamed to small numbers in order of issue; the TxWal and the delta-similarity arithmetic are outside the model (deltas are zero, or identical one-hot vectors to force the cross-shard-conflict abort)",
